@@ -1,11 +1,15 @@
 (* Properties/C10.v - IDNA ToASCII output properties.  Only statements, closed by `exact`.
    C10_ascii_statement (Proofs/Idna_Hyp.v) is proved for all inputs relative to the adapter premise NvNoTrunc
    (C10_ascii) and refuted without it (C10_ascii_unconditional_refuted).
-   Unproved full-strength statements: C10_idem_statement, C10_case_statement (Proofs/Idna_Hyp.v);
-   see theorem_notes in tools/props_d/C10.py. *)
+   C10_idem_statement and C10_case_statement (Proofs/Idna_Hyp.v) are REFUTED as written (C10_idem_refuted: F-C10-1,
+   a label of at most 1000 scalar values whose Punycode form is longer than 2000; C10_case_refuted: AdapterOK does
+   not constrain bidi_class).  Both are proved, for every adapter, on the adapter-free class AN (all-ASCII names
+   without an xn-- label): C10_an, C10_idem_an, C10_case_an.  Corrected full-strength statements, not proved:
+   C10_idem_statement2, C10_case_statement2 (Proofs/Idna_C10b_Stmt.v); see theorem_notes in tools/props_d/C10.py. *)
 From RU Require Import Base.Prelude Base.Utf8 Base.U32_c13 Gen.Tables Model.Punycode Model.Uts46
   Proofs.Idna_Sim Proofs.Idna_Api Proofs.Idna_Known Proofs.Idna_Hyp Proofs.Idna_Tables Proofs.Idna_Redisc
-  Proofs.Idna_C10_Deny Proofs.Idna_C10_Prefix Proofs.Idna_C10_Inner Proofs.Idna_C10_Walk Proofs.Idna_C10_Config.
+  Proofs.Idna_C10_Deny Proofs.Idna_C10_Prefix Proofs.Idna_C10_Inner Proofs.Idna_C10_Walk Proofs.Idna_C10_Config
+  Proofs.Idna_C10b_Long Proofs.Idna_C10b_AsciiInner Proofs.Idna_C10b_AsciiWalk Proofs.Idna_C10b_Stmt Proofs.Idna_C10b_LongRej.
 
 (* a borrowed result is the input *)
 Theorem C10_borrow : forall A cfg d deny hy dns r, to_ascii A cfg d deny hy dns = Ok (true, r) -> r = d.
@@ -21,6 +25,102 @@ Proof. exact to_ascii_idem_borrowed. Qed.
 Check C10_idem_borrowed : forall A cfg d deny hy dns r,
   to_ascii A cfg d deny hy dns = Ok (true, r) -> to_ascii A cfg r deny hy dns = Ok (true, r).
 Print Assumptions C10_idem_borrowed.
+
+(* ---- idempotence and case-insensitivity ---- *)
+(* F-C10-1: C10_idem_statement is false (outside Known_C12), for an adapter that satisfies AdapterOK: a label of 1000
+   ideographs is accepted, its Punycode form has 2958 characters after xn--, and to_ascii rejects that *)
+Theorem C10_idem_refuted : exists A cfg, AdapterOK A /\ ~ C10_idem_statement A cfg.
+Proof. exact c10_idem_refuted. Qed.
+Check C10_idem_refuted : exists A cfg, AdapterOK A /\ ~ C10_idem_statement A cfg.
+Print Assumptions C10_idem_refuted.
+
+Theorem C10_long_witness :
+  bytes W_C10_long /\ len W_C10_long_U = 1000 /\ len W_C10_long_A = 2962 /\
+  to_ascii lowad false W_C10_long DENY_EMPTY HAllow DIgnore = Ok (false, W_C10_long_A) /\
+  to_ascii lowad false W_C10_long_A DENY_EMPTY HAllow DIgnore = Err /\
+  Known_C10_long W_C10_long_A = true /\
+  Known_C12 lowad false W_C10_long DENY_EMPTY HAllow = false /\
+  Known_C11 lowad false W_C10_long DENY_EMPTY HAllow = false.
+Proof. exact w_c10_long. Qed.
+Check C10_long_witness :
+  bytes W_C10_long /\ len W_C10_long_U = 1000 /\ len W_C10_long_A = 2962 /\
+  to_ascii lowad false W_C10_long DENY_EMPTY HAllow DIgnore = Ok (false, W_C10_long_A) /\
+  to_ascii lowad false W_C10_long_A DENY_EMPTY HAllow DIgnore = Err /\
+  Known_C10_long W_C10_long_A = true /\
+  Known_C12 lowad false W_C10_long DENY_EMPTY HAllow = false /\
+  Known_C11 lowad false W_C10_long DENY_EMPTY HAllow = false.
+Print Assumptions C10_long_witness.
+
+(* every member of the class Known_C10_long is rejected - every adapter, every option combination: an all-ASCII name
+   with a label that starts with xn-- and has more than 2000 characters after it is never accepted.  So a result of
+   to_ascii inside the class (they exist: C10_long_witness) is never a fixed point: the exclusion of the class from
+   the idempotence statement is necessary *)
+Theorem C10_long_rejected : forall A cfg r deny hy dns b x, Forall (fun c => c < 128) r -> Known_C10_long r = true ->
+  to_ascii A cfg r deny hy dns <> Ok (b, x).
+Proof. exact long_rejected. Qed.
+Check C10_long_rejected : forall A cfg r deny hy dns b x, Forall (fun c => c < 128) r -> Known_C10_long r = true ->
+  to_ascii A cfg r deny hy dns <> Ok (b, x).
+Print Assumptions C10_long_rejected.
+
+(* C10_case_statement is false relative to AdapterOK alone: "a.<alef>" is accepted, "A.<alef>" is not, for an adapter
+   whose bidi class of 'a' cannot start a label (the labels of the pass-through prefix are never submitted to the
+   bidi rule).  Not a defect with the real data, where the bidi rule accepts every pass-through label. *)
+Theorem C10_case_refuted : exists A, AdapterOK A /\ forall cfg, ~ C10_case_statement A cfg.
+Proof. exact c10_case_refuted. Qed.
+Check C10_case_refuted : exists A, AdapterOK A /\ forall cfg, ~ C10_case_statement A cfg.
+Print Assumptions C10_case_refuted.
+
+(* the adapter-free class AN d = every dot-separated label of d is ASCII and does not start with xn-- (any case):
+   to_ascii in closed form, EVERY adapter, every option combination, debug assertions on or off.  The text is the ASCII
+   lower-casing of the name; it is accepted iff every label is accepted (lab_acc: no character of the label is in the
+   deny list once upper-case letters are folded, and the requested hyphen checks pass) and - when DNS length
+   verification is requested - the lower-cased name satisfies the limits *)
+Theorem C10_an : forall A cfg d deny hy dns, AN d -> valid_deny deny ->
+  exists b, to_ascii A cfg d deny hy dns =
+    if forallb (lab_acc deny hy) (split_on DOT d)
+       && (dns_is_ignore dns || verify_dns_length (map to_lower d) (dns_is_root dns))
+    then Ok (b, map to_lower d) else Err.
+Proof. exact c10_an. Qed.
+Check C10_an : forall A cfg d deny hy dns, AN d -> valid_deny deny ->
+  exists b, to_ascii A cfg d deny hy dns =
+    if forallb (lab_acc deny hy) (split_on DOT d)
+       && (dns_is_ignore dns || verify_dns_length (map to_lower d) (dns_is_root dns))
+    then Ok (b, map to_lower d) else Err.
+Print Assumptions C10_an.
+
+(* fixed point on the class (Owned results included), every adapter *)
+Theorem C10_idem_an : forall A cfg d deny hy dns b r, AN d -> valid_deny deny ->
+  to_ascii A cfg d deny hy dns = Ok (b, r) ->
+  r = map to_lower d /\ AN r /\ exists b', to_ascii A cfg r deny hy dns = Ok (b', r).
+Proof. exact c10_idem_an. Qed.
+Check C10_idem_an : forall A cfg d deny hy dns b r, AN d -> valid_deny deny ->
+  to_ascii A cfg d deny hy dns = Ok (b, r) ->
+  r = map to_lower d /\ AN r /\ exists b', to_ascii A cfg r deny hy dns = Ok (b', r).
+Print Assumptions C10_idem_an.
+
+(* the result does not change when ASCII letters of the input change case, on the class, every adapter *)
+Theorem C10_case_an : forall A cfg d d' deny hy dns b r, AN d -> valid_deny deny ->
+  ascii_case_variant d d' -> to_ascii A cfg d deny hy dns = Ok (b, r) ->
+  AN d' /\ exists b', to_ascii A cfg d' deny hy dns = Ok (b', r).
+Proof. exact c10_case_an. Qed.
+Check C10_case_an : forall A cfg d d' deny hy dns b r, AN d -> valid_deny deny ->
+  ascii_case_variant d d' -> to_ascii A cfg d deny hy dns = Ok (b, r) ->
+  AN d' /\ exists b', to_ascii A cfg d' deny hy dns = Ok (b', r).
+Print Assumptions C10_case_an.
+
+(* the class is decidable; membership of a concrete name is a computation *)
+Theorem C10_an_decidable : forall d, ANb d = true -> AN d.
+Proof. exact ANb_spec. Qed.
+Check C10_an_decidable : forall d, ANb d = true -> AN d.
+Print Assumptions C10_an_decidable.
+
+Example C10_an_premises_hold :
+  AN [65; 45; 98; 46; 88; 110; 45; 99; 46] /\ valid_deny DENY_URL /\
+  to_ascii toy true [65; 45; 98; 46; 88; 110; 45; 99; 46] DENY_URL HCheck DVerifyAllowRootDot
+    = Ok (false, [97; 45; 98; 46; 120; 110; 45; 99; 46]) /\
+  lab_acc DENY_URL HCheck [65; 45; 98] = true /\ lab_acc DENY_URL HCheck [65; 45] = false /\ lab_acc DENY_URL HAllow [65; 45] = true /\
+  lab_acc DENY_URL HAllow [65; 37] = false.
+Proof. exact an_premises_hold. Qed.
 
 (* DNS length limits when verification is requested: labels 1..63, total <= 253 without the root dot,
    root dot only in VerifyAllowRootDot *)
